@@ -311,11 +311,18 @@ func Gen(t *rapid.T, tier string) any {
 	}
 
 	// Per-host candidate prefixes.
+	// candPfx: prefixes of the names the statement allows to be hashed; widePfx:
+	// prefixes of every label-suffix of the host (whatever an implementation
+	// may hash and ask for, e.g. the ICANN suffix above a private one).
 	candPfx := map[string][]pfx{}
+	widePfx := map[string][]pfx{}
 	allCand := map[string]bool{}
 	for _, h := range sc.Pool {
 		for _, c := range candidates(h) {
 			candPfx[h] = append(candPfx[h], pfxOf(sum(c)))
+		}
+		for _, c := range allSuffixes(h) {
+			widePfx[h] = append(widePfx[h], pfxOf(sum(c)))
 			allCand[c] = true
 		}
 	}
@@ -328,7 +335,7 @@ func Gen(t *rapid.T, tier string) any {
 			ok := true
 			for _, h := range sc.Pool {
 				has, other := false, false
-				for _, q := range candPfx[h] {
+				for _, q := range widePfx[h] {
 					if q == p {
 						has = true
 					} else if dbPfx[q] {
@@ -354,7 +361,7 @@ func Gen(t *rapid.T, tier string) any {
 	}
 	faultPct := rapid.SampledFrom([]int{0, 15, 30, 50}).Draw(t, "fault_pct")
 	for i, n := 0, rapid.IntRange(10, maxOps).Draw(t, "n_ops"); i < n; i++ {
-		if k := rapid.IntRange(0, 99).Draw(t, "kind"); k >= 40 && k < 56 {
+		if k := rapid.IntRange(0, 99).Draw(t, "kind"); k >= 40 && k < 66 {
 			sc.Ops = append(sc.Ops, Op{K: "advance", Ms: rapid.SampledFrom(advances).Draw(t, "adv_ms")})
 			continue
 		}
@@ -437,8 +444,20 @@ type lookup struct {
 	hashesSent int            // valid full hashes in the answers of the current check
 	groups     int            // prefixes asked in the current check
 	askedNow   map[pfx]bool   // the prefixes asked in the current check
-	poisoned   map[pfx]string // listed prefixes answered incompletely by a fault -> which fault
+	poisoned   map[pfx]poison // listed prefixes answered incompletely by a fault
 	c          *kernel.Ctx
+}
+
+// poison records that a fault made the service give incomplete knowledge about
+// a listed prefix (used only to name the class of a later wrong verdict).
+type poison struct {
+	by string
+	at time.Time
+}
+
+func (l *lookup) poisonPfx(p pfx, by string) {
+	// The most recent faulty answer is what the cache holds now.
+	l.poisoned[p] = poison{by: by, at: time.Now()}
 }
 
 func (l *lookup) Address() string { return "sim-lookup:53" }
@@ -487,7 +506,7 @@ func (l *lookup) Exchange(req *dns.Msg) (resp *dns.Msg, err error) {
 		fire()
 		for _, p := range ps {
 			if len(l.byPfx[p]) > 0 {
-				l.poisoned[p] = "servfail"
+				l.poisonPfx(p, "servfail")
 			}
 		}
 		m := new(dns.Msg)
@@ -582,7 +601,7 @@ func (l *lookup) Exchange(req *dns.Msg) (resp *dns.Msg, err error) {
 				continue // asked: the answer is complete, nothing special
 			}
 			valid = append(valid, hex.EncodeToString(h[:]))
-			l.poisoned[p] = "unasked_prefix"
+			l.poisonPfx(p, "unasked_prefix")
 			fire()
 		}
 	}
@@ -656,7 +675,7 @@ func (r *runner) newChecker() {
 		CacheSize:   r.sc.CacheSize,
 	})
 	r.bound = 0
-	r.lk.poisoned = map[pfx]string{}
+	r.lk.poisoned = map[pfx]poison{}
 	r.fullyLooked = map[string]time.Time{}
 }
 
@@ -917,8 +936,14 @@ func (r *runner) check(i int, op Op) error {
 	case fromCache:
 		poisoned := ""
 		for _, h := range candHashes {
-			if lk.db[h] && lk.poisoned[pfxOf(h)] != "" {
-				poisoned = lk.poisoned[pfxOf(h)]
+			// The label holds for as long as the entry made from the faulty
+			// answer can live.
+			if po, ok := lk.poisoned[pfxOf(h)]; ok && lk.db[h] {
+				if time.Since(po.at) <= time.Duration(r.sc.CacheTimeS+1)*time.Second {
+					poisoned = po.by
+				} else {
+					delete(lk.poisoned, pfxOf(h))
+				}
 			}
 		}
 		switch {
